@@ -55,6 +55,15 @@ func VerifC08Reopen() {
 	s.AutoGC = false
 	s.AutoSaveIndex = verifrt.Bool()
 	m := &refModel{stored: make([]bool, K), tags: map[string]int{}}
+	if verifrt.Param("prepush", 0) != 0 {
+		// start from a populated layout so that short histories reach multi-tag states
+		for i := range nodes {
+			if !storedIdx(nodes, m, i) {
+				must(s.Push(ctx, nodes[i].desc, newBytesReader(nodes[i].bytes)))
+			}
+			m.stored[i] = true
+		}
+	}
 	applyHistory(ctx, s, nodes, m, k, verifrt.Param("gc", 0) != 0, verifrt.Param("delete", 1) != 0)
 	if !s.AutoSaveIndex {
 		verifrt.Assert(s.SaveIndex() == nil, "C08.saveindex-succeeds")
